@@ -90,3 +90,41 @@ Proof.
   eexists. split; [vm_compute; reflexivity|]. split; [|reflexivity].
   none_enabled.
 Qed.
+
+(* ---------- explicit numbering (Proof/MailboxNumbered.v) ---------- *)
+From SV Require Import Proof.MailboxNumbered.
+
+(* message 1 is sent before message 0; message 2 is a future *)
+Definition ex3_items : list (nat * msg) := [(1, Plain 100); (0, Plain 101); (2, Fut 0 102)].
+
+Example ex3_hyps :
+  NoDup (map fst ex3_items) /\ (forall k m, In (k, m) ex3_items -> k < length ex3_items) /\
+  (forall k m, In (k, m) ex3_items -> is_stop m = false).
+Proof.
+  split; [|split].
+  - cbn. repeat constructor; cbn; intuition discriminate.
+  - intros k m [H|[H|[H|[]]]]; inversion H; cbn; lia.
+  - intros k m [H|[H|[H|[]]]]; inversion H; reflexivity.
+Qed.
+
+Example ex3_expected : expected ex3_items = [101; 100; 102]%Z.
+Proof. reflexivity. Qed.
+
+Example ex3_run :
+  exists st, run (mkConfig (Some 2) false)
+                 (init (mkConfig (Some 2) false) [true] (numbered_source ex3_items) None 1)
+                 [TS; TS; TS; TR 0; TS; TS; TR 0; TW 0; TR 0] = Some st /\
+             all_terminal st = true /\ map r_log (rds st) = [[101; 100; 102]]%Z.
+Proof. eexists. split; [vm_compute; reflexivity|]. split; reflexivity. Qed.
+
+(* ---------- divide_outputs (Model/MailboxDivider.v) ---------- *)
+From SV Require Import Model.MailboxDivider.
+
+Example ex4_divider_run :
+  let dc := mkDC (Some 1) false [false; false] in
+  exists ds, drun dc (dinit dc [[true]; [true]] [[Plain 0; Plain 1]; [Plain 100; Plain 101]] 2)
+                  [DT; DT; DT; DR 0 0; DT; DT; DR 0 0; DR 0 0; DR 1 0; DT; DT; DT; DR 0 0; DR 1 0; DT; DR 1 0]
+             = Some ds /\
+             d_all_terminal ds = true /\
+             map (fun c => map r_log (rds c)) (d_mbs ds) = [[[0; 1]]; [[100; 101]]]%Z.
+Proof. cbv zeta. eexists. split; [vm_compute; reflexivity|]. split; reflexivity. Qed.
